@@ -116,8 +116,9 @@ func (fr *Frame) jsonTargetFacts(st *State, p Term, et types.Type, doc, err Term
 		jv := sx("jsonAny", doc)
 		var alts []Term
 		alts = append(alts, Eq(jv, "nilval"))
-		for _, tn := range []string{"bool", "float64", "string", "[]interface{}", "map[string]interface{}"} {
-			alts = append(alts, And(Not(Eq(jv, "nilval")), Eq(sx("typeOf", jv), vc.tyIDByName(tn))))
+		anyT := types.Universe.Lookup("any").Type()
+		for _, tt := range []types.Type{types.Typ[types.Bool], types.Typ[types.Float64], types.Typ[types.String], types.NewSlice(anyT), types.NewMap(types.Typ[types.String], anyT)} {
+			alts = append(alts, And(Not(Eq(jv, "nilval")), Eq(sx("typeOf", jv), vc.tyID(tt))))
 		}
 		vc.sc.Assume(st.reach, Implies(ok, And(Eq(v, jv), Or(alts...))))
 		// elements of a decoded array are decoded values as well: non-nil members carry one of the
